@@ -314,6 +314,9 @@ func (m *machine) exec(s M) (ret any) {
 		x := m.reg(s, "x")
 		ret = M{"sign": x.Sign(), "signbit": x.Signbit(), "isinf": x.IsInf(), "iszero": x.IsZero(), "isint": x.IsInt(),
 			"minprec": int64(x.MinPrec()), "prec": int64(x.Prec()), "mode": int(x.Mode()), "acc": int(x.Acc())}
+	case "IsInt":
+		x := m.reg(s, "x")
+		ret = M{"isint": x.IsInt(), "minprec": int64(x.MinPrec())}
 	case "Int64":
 		v, a := m.reg(s, "x").Int64()
 		ret = M{"v": strconv.FormatInt(v, 10), "acc": accStr(a)}
